@@ -67,7 +67,7 @@ func RandTypeV(r *rand.Rand, depth int) TermV {
 	case 5:
 		return FnT("fn:Singleton", ConstT(singletonVal(r)))
 	case 6:
-		n := 2 + r.Intn(2)
+		n := 3 + r.Intn(2)
 		args := make([]TermV, n)
 		for i := range args {
 			args[i] = RandTypeV(r, depth+1)
